@@ -5,6 +5,7 @@ import (
 	"go/ast"
 	"go/types"
 	"math/big"
+	"sort"
 	"strings"
 
 	"gcv/internal/an"
@@ -293,6 +294,8 @@ func checkC08(r *core.Run) {
 	r.Rule("R-C08-tables", "every entry of the embedded precomputed tables (pre_g, pre_g_128, prec, fin), in every limb layout that some GOARCH builds, equals the multiple of G it stands for, recomputed with an independent affine group law in math/big from the literals in the syntax tree")
 	r.Rule("R-C08-consts", "curve, endomorphism (lambda, beta, GLV lattice) and limb constants satisfy their defining equations")
 	r.Rule("R-C08-limbs", "interval abstract interpretation of every field operation's limb arithmetic, per limb layout: under the magnitude contract of its inputs no uint64/uint32 operation wraps, no 128-bit accumulator overflows (each discarded carry-out is an obligation), and every output limb stays within the bound of the output magnitude (Normalize/SetB32: canonical limb ranges)")
+	r.Rule("R-C08-alias", "in-place safety of the group operations: in every method of XYZ/XY that takes an output record and an input record of the same type, no coordinate of the input is read (directly, through a field operation, or by passing the record on) after the same coordinate of the output was written - the operations are called with the output aliasing an input (r.Add(r, &p), r.Double(r))")
+	r.Rule("R-C08-mag", "magnitude typestate through the group/signature code: every Mul/Sqr/Inv/Sqrt operand has magnitude <= 8, every Negate(x,m) has mag(x) <= m, every Equals/IsZero/IsOdd/GetB32 operand is normalised, SetAdd/MulInt results stay <= 32, and the coordinates of every record passed to or returned from a function stay within the coordinate invariant (computed as least fixpoint and printed)")
 	r.Exhaust["R-C08-tables"] = true
 	r.Explain = "Static: literals of the precomputed tables and curve constants are read from the type-checked syntax tree of /repo (no gocoin code is executed) and compared with values recomputed from the group law; magnitude/overflow abstract interpretation of the limb arithmetic and of the group formulas' call sites (see rules). Decides the 'tables contain exactly the multiples of G' sentence exhaustively and necessary conditions (no limb overflow, magnitude preconditions) of the field/group sentences."
 	r.NotCov = "That the Jacobian/affine formulas implement the group law for all operands (needs symbolic polynomial reasoning), wNAF/GLV digit correctness, big.Int code paths."
@@ -303,6 +306,10 @@ func checkC08(r *core.Run) {
 		}
 		c08Tables(r, p, v.name)
 		c08Limbs(r, p, v.name)
+		if v.arch == "" {
+			c08Alias(r, p)
+		}
+		c08Mag(r, p, v.name)
 		if v.arch == "" {
 			c08Consts(r, p)
 		}
@@ -441,4 +448,93 @@ func c08Limbs(r *core.Run, p *core.Program, variant string) {
 		}
 		r.Check(bad == "", rule, key, p.Pos(fn.Pos()), "no limb/accumulator overflow; every output limb within its bound", bad)
 	}
+}
+
+
+func c08Alias(r *core.Run, p *core.Program) {
+	const rule = "R-C08-alias"
+	sp := p.SSAPkg("lib/secp256k1")
+	if sp == nil {
+		r.Undecided("no SSA for lib/secp256k1")
+		return
+	}
+	fobj := sp.Pkg.Scope().Lookup("Field")
+	if fobj == nil {
+		r.Undecided("Field type not found")
+		return
+	}
+	ac := an.NewAliasChecker(p, fobj.Type().(*types.Named))
+	// Normalize rewrites the limbs of the same value (checked by R-C08-limbs): not an output write
+	ac.ValuePreserving = map[string]bool{"(*lib/secp256k1.Field).Normalize": true}
+	n := 0
+	for _, tn := range []string{"XYZ", "XY"} {
+		obj := sp.Pkg.Scope().Lookup(tn)
+		if obj == nil {
+			continue
+		}
+		named := obj.Type().(*types.Named)
+		for i := 0; i < named.NumMethods(); i++ {
+			fn := p.SSA.FuncValue(named.Method(i))
+			if fn == nil || fn.Blocks == nil {
+				continue
+			}
+			pairs, probs := ac.Check(fn)
+			if pairs == 0 {
+				continue
+			}
+			n++
+			key := core.FuncName(fn)
+			if len(probs) == 0 {
+				r.OK(rule, key, p.Pos(fn.Pos()), fmt.Sprintf("%d (output,input) pair(s): every input coordinate is read before the output's is written", pairs))
+				continue
+			}
+			r.Fail(rule, key, p.Pos(an.InstrPos(probs[0].Read.Instr)), probs[0].What+fmt.Sprintf(" (%d such pair(s) of events)", len(probs)))
+		}
+	}
+	r.Check(n >= 4, rule, "floor/in-place-operations", "-", fmt.Sprintf("%d in-place capable operations analysed", n), fmt.Sprintf("only %d in-place capable group operations found", n))
+}
+
+
+func c08Mag(r *core.Run, p *core.Program, variant string) {
+	const rule = "R-C08-mag"
+	sp := p.SSAPkg("lib/secp256k1")
+	if sp == nil {
+		return
+	}
+	fobj := sp.Pkg.Scope().Lookup("Field")
+	ma := an.NewMagAnalysis(p, "lib/secp256k1", fobj.Type().(*types.Named))
+	var fns []*ssa.Function
+	for _, f := range p.ModuleFuncs() {
+		pk := core.FuncPkg(f)
+		if pk == nil || !strings.HasSuffix(pk.Path(), "lib/secp256k1") {
+			continue
+		}
+		// the limb-level methods of Field are covered by R-C08-limbs; helpers built from them (Inv, Sqrt) are analysed here
+		if f.Signature.Recv() != nil && types.Identical(an.Deref(f.Signature.Recv().Type()), fobj.Type()) {
+			switch f.Name() {
+			case "Inv", "InvVar", "Sqrt", "IsOdd":
+			default:
+				continue
+			}
+		}
+		fns = append(fns, f)
+	}
+	ma.Run(fns)
+	r.Count("mag_sites_"+variant, ma.Sites)
+	r.Count("mag_functions_"+variant, ma.Funcs)
+	var inv []string
+	for rec, m := range ma.Inv {
+		for c, v := range m {
+			inv = append(inv, fmt.Sprintf("%s.%s<=%d", rec, c, v))
+		}
+	}
+	sort.Strings(inv)
+	r.OK(rule, variant+"/coordinate-invariant", "-", "least fixpoint: "+strings.Join(inv, " "))
+	for _, pr := range ma.Problems {
+		r.Fail(rule, variant+"/"+pr.Key, p.Pos(pr.Pos), pr.What)
+	}
+	if len(ma.Problems) == 0 {
+		r.OK(rule, variant+"/all-sites", "-", fmt.Sprintf("%d operand sites in %d functions satisfy their magnitude contracts", ma.Sites, ma.Funcs))
+	}
+	r.Check(ma.Sites >= 150, rule, variant+"/floor/sites", "-", fmt.Sprintf("%d sites", ma.Sites), fmt.Sprintf("only %d magnitude sites found (expected several hundred)", ma.Sites))
 }
